@@ -467,6 +467,21 @@ def run(chk, tier):
                          '#[display("{_variant} | {%s}")] enum S%s { V %s }' % (f.name, gdecl, body)):
                 mod = "use super::*;\n#[derive(derive_more::Display)]\n%s\npub fn run(r: &mut R) { assert_impl::<%s>(); r.check(\"impl available\", true); }" % (item, ty)
                 cases.append(Case("c%d" % len(cases), mod, meta={"src": "#[derive(Display)] %s" % item, "inst": ty}))
+    # a generic field whose type names the parameter only through `Self` (a projection of the deriving type) or through a type macro
+    for derive, ph in (("Display", ""), ("Debug", ":?")):
+        fn = "assert_impl" if derive == "Display" else "assert_impl_debug"
+        a = ATTR[derive]
+        for item, extra in (
+                ('#[%s("{_0%s}")] struct S<T>(<Self as Own>::Out, ::core::marker::PhantomData<T>);' % (a, ph), "impl<T> Own for S<T> { type Out = T; }"),
+                ('#[%s("{x%s}")] struct S<T> { x: <Self as Own>::Out, y: ::core::marker::PhantomData<T> }' % (a, ph), "impl<T> Own for S<T> { type Out = Vec<T>; }"),
+                ('enum S<T> { #[%s("{_0%s}")] V(<Self as Own>::Out), #[%s("w")] W(::core::marker::PhantomData<T>) }' % (a, ph, a), "impl<T> Own for S<T> { type Out = T; }"),
+                ('#[%s("{_0%s}")] struct S<T>(IdTy!(T));' % (a, ph), ""),
+                ('#[%s("{_0%s} {_1%s}")] struct S<T, U>(IdTy!(Vec<T>), IdTy!(u8), ::core::marker::PhantomData<U>);' % (a, ph, ph), "")):
+            if derive == "Display" and "Vec<T>" in item + extra:
+                continue
+            ty = "S<i32, NoFmt>" if "<T, U>" in item else "S<i32>"
+            mod = "use super::*;\npub trait Own { type Out; }\nmacro_rules! IdTy { ($t:ty) => { $t } }\n#[derive(derive_more::%s)]\n%s\n%s\npub fn run(r: &mut R) { %s::<%s>(); r.check(\"impl available\", true); }" % (derive, item, extra, fn, ty)
+            cases.append(Case("c%d" % len(cases), mod, meta={"src": "#[derive(%s)] %s %s" % (derive, item, extra), "inst": ty}))
     eng = CompileEngine("C04", prelude=PRELUDE, per_bin=max(8, len(cases) // 16 + 1))
     results = eng.run_cases(cases)
     for c in cases:
